@@ -195,11 +195,20 @@ func nodeHash(self, left, right Node) (util.Hash, error) {
 	key := []byte(self.Key())
 
 	var lh, rh []byte
+
 	if left != nil {
+		if left.Hash() == nil {
+			return nil, errors.Errorf("empty hash of left child")
+		}
+
 		lh = left.Hash().Bytes()
 	}
 
 	if right != nil {
+		if right.Hash() == nil {
+			return nil, errors.Errorf("empty hash of right child")
+		}
+
 		rh = right.Hash().Bytes()
 	}
 
